@@ -727,6 +727,7 @@ pub fn fault_specs(kind: Kind) -> Vec<String> {
         Kind::Local => vec!["local.add_version.between-insert-and-latest".into(), "local.add_version.before-commit".into()],
         Kind::GitLocal | Kind::GitRemote => vec![
             "git.add_version.after-version-file".into(),
+            "git.stage_and_commit.after-add".into(),
             "git.add_version.after-meta".into(),
             "git.add_version.after-commit".into(),
         ],
